@@ -21,7 +21,10 @@ def f2bits(x, bits):
 def bits2f(v, bits):
     return struct.unpack('<f', struct.pack('<I', v))[0] if bits == 32 else struct.unpack('<d', struct.pack('<Q', v))[0]
 def fsort(bits): return z3.Float32() if bits == 32 else z3.Float64()
-def tofp(v, bits): return z3.fpBVToFP(bv(v, bits), fsort(bits))
+FP_HOOK = [None]     # set by run.py: Engine.need_fp (switches the solver to a logic with floating point)
+def tofp(v, bits):
+    if FP_HOOK[0] is not None: FP_HOOK[0]()
+    return z3.fpBVToFP(bv(v, bits), fsort(bits))
 
 
 def decode_function(E, fn):
@@ -399,8 +402,8 @@ def decode_inst(E, m, fc, toks, bi, slot, operand, lidx, mk_jump, zero_of):
             else:
                 RNE = z3.RNE(); RTZ = z3.RTZ()
                 if op in ('fpext', 'fptrunc'): r = z3.fpToIEEEBV(z3.fpFPToFP(RNE, tofp(v, fb), fsort(tb)))
-                elif op == 'uitofp': r = z3.fpToIEEEBV(z3.fpUnsignedToFP(RNE, b2bv(v, fb) if is_bool(v) else v, fsort(tb)))
-                elif op == 'sitofp': r = z3.fpToIEEEBV(z3.fpSignedToFP(RNE, v, fsort(tb)))
+                elif op == 'uitofp': FP_HOOK[0] and FP_HOOK[0](); r = z3.fpToIEEEBV(z3.fpUnsignedToFP(RNE, b2bv(v, fb) if is_bool(v) else v, fsort(tb)))
+                elif op == 'sitofp': FP_HOOK[0] and FP_HOOK[0](); r = z3.fpToIEEEBV(z3.fpSignedToFP(RNE, v, fsort(tb)))
                 elif op == 'fptoui': r = z3.fpToUBV(RTZ, tofp(v, fb), z3.BitVecSort(tb))
                 else: r = z3.fpToSBV(RTZ, tofp(v, fb), z3.BitVecSort(tb))
             R[d] = r
